@@ -43,6 +43,7 @@ var dcFieldSrc = map[string]string{
 	"structDeep":    "D Deep",
 	"definedScalar": "DS MyInt",
 	"definedMap":    "DM MyMap",
+	"definedMapM":   "DMM MyMapM",
 	"mapOfDefined":  "MD map[string]MyInt",
 	"errorField":    "Err error",
 	"ifaceField":    "St fmt.Stringer",
@@ -56,6 +57,7 @@ var dcDeps = map[string]string{
 	"structDeep":    "// Deep nests two levels.\ntype Deep struct {\n\tIn2 Inner2\n\tM   map[string]string\n}\n\n// Inner2 is the second level.\ntype Inner2 struct {\n\tL []string\n}\n",
 	"definedScalar": "// MyInt is a defined scalar.\ntype MyInt int\n",
 	"definedMap":    "// MyMap is a defined map.\ntype MyMap map[string]int\n",
+	"definedMapM":   "// MyMapM is a defined map with a method of its own.\ntype MyMapM map[string]int\n\n// Len is hand written.\nfunc (m MyMapM) Len() int { return len(m) }\n",
 	"mapOfDefined":  "// MyInt is a defined scalar.\ntype MyInt int\n",
 	"genericInst":   "// Gen is a generic struct.\ntype Gen[X any] struct {\n\tV X\n\tL []int\n}\n",
 	"untaggedDep":   "// Untagged is a dependency without its own tag.\ntype Untagged struct {\n\tL []int\n}\n",
@@ -155,6 +157,19 @@ func fill(v reflect.Value) {
 	}
 }
 
+func fillEmpty(v reflect.Value) {
+	switch v.Kind() {
+	case reflect.Slice:
+		v.Set(reflect.MakeSlice(v.Type(), 0, 0))
+	case reflect.Map:
+		v.Set(reflect.MakeMap(v.Type()))
+	case reflect.Struct:
+		for i := 0; i < v.NumField(); i++ {
+			fillEmpty(v.Field(i))
+		}
+	}
+}
+
 // containers reachable through by-value struct nesting
 func containers(v reflect.Value, path string, f func(path string, c reflect.Value)) {
 	switch v.Kind() {
@@ -213,6 +228,13 @@ func probe(p any) (o out) {
 	o.Equal = !cp.IsNil() && reflect.DeepEqual(orig.Elem().Interface(), cp.Elem().Interface())
 	if cp.IsNil() {
 		return
+	}
+	// ... and with empty, non-nil containers (reflect.DeepEqual tells them from nil ones)
+	e := reflect.New(orig.Type().Elem())
+	fillEmpty(e.Elem())
+	ec := e.MethodByName("DeepCopy").Call(nil)[0]
+	if ec.IsNil() || !reflect.DeepEqual(e.Elem().Interface(), ec.Elem().Interface()) {
+		o.Equal = false
 	}
 	origC := map[string]reflect.Value{}
 	containers(orig.Elem(), "", func(path string, c reflect.Value) { origC[path] = c })
